@@ -5,7 +5,9 @@ import (
 	"go/token"
 	"go/types"
 	"math/big"
+	"runtime"
 	"sort"
+	"sync"
 
 	"golang.org/x/tools/go/ssa"
 )
@@ -72,7 +74,8 @@ func (w *World) branchVars(fr *frame, cond ssa.Value) []int {
 		if _, isConst := v.(*ssa.Const); isConst {
 			return
 		}
-		xi, ok := fr.env[v].(*Int)
+		xv, _ := fr.get(v)
+		xi, ok := xv.(*Int)
 		if !ok {
 			return
 		}
@@ -148,32 +151,93 @@ type nafTab struct {
 	rpos    string
 	trans   map[nafState]map[nafState]bool // transitions compatible with bit 255 = 0
 	maxVars int
+	phiIdx  [2]int // positions of pos and carry among the instructions of the head
+	probing bool
 }
+
+// nafChunks is the number of position ranges each width is split into; the
+// (width, range) tasks are tabulated concurrently, each in its own World.
+const (
+	nafChunks  = 4
+	nafWorkers = 4
+)
 
 func (c *checker) recodeNAF(rc *recodeCtx) {
 	fn := c.p.Func(scalarRel, "(*Scalar).NonAdjacentForm")
+	type task struct {
+		wd, chunk int
+		tab       *nafTab
+		err       string
+	}
+	var tasks []*task
 	for wd := 2; wd <= 8; wd++ {
-		name := fmt.Sprintf("%s.(*Scalar).NonAdjacentForm(w=%d)", scalarRel, wd)
 		// at least one leaf per (pos, carry) for each of the two per-leaf
 		// clauses, plus the exit and the termination clause
 		c.plan(c.value, 512)
 		c.plan(c.rng, 512+2)
 		if fn == nil || len(fn.Blocks) == 0 {
+			name := fmt.Sprintf("%s.(*Scalar).NonAdjacentForm(w=%d)", scalarRel, wd)
 			c.fail(c.value, "-", name, "anchor function (*Scalar).NonAdjacentForm cannot be resolved")
 			c.fail(c.rng, "-", name, "anchor function (*Scalar).NonAdjacentForm cannot be resolved")
 			continue
 		}
 		c.res.Functions++
-		c.nafWidth(rc, fn, wd, name)
+		for ch := 0; ch < nafChunks; ch++ {
+			tasks = append(tasks, &task{wd: wd, chunk: ch})
+		}
+	}
+	// the heaviest tasks (largest w) first
+	order := append([]*task(nil), tasks...)
+	sort.SliceStable(order, func(i, j int) bool { return order[i].wd > order[j].wd })
+	workers := min(nafWorkers, runtime.GOMAXPROCS(0))
+	sem := make(chan struct{}, max(workers, 1))
+	var wg sync.WaitGroup
+	for _, tk := range order {
+		wg.Add(1)
+		sem <- struct{}{}
+		go func(tk *task) {
+			defer wg.Done()
+			defer func() { <-sem }()
+			defer func() {
+				if e := recover(); e != nil {
+					tk.err = fmt.Sprintf("analysis panicked: %v", e)
+				}
+			}()
+			tk.tab, tk.err = c.nafSetup(rc, fn, tk.wd)
+			if tk.err == "" {
+				per := 256 / nafChunks
+				tk.tab.tabulate(tk.chunk*per, (tk.chunk+1)*per)
+			}
+		}(tk)
+	}
+	wg.Wait()
+	for wd := 2; wd <= 8 && fn != nil && len(fn.Blocks) > 0; wd++ {
+		name := fmt.Sprintf("%s.(*Scalar).NonAdjacentForm(w=%d)", scalarRel, wd)
+		var tabs []*nafTab
+		errMsg := ""
+		for _, tk := range tasks {
+			if tk.wd != wd {
+				continue
+			}
+			if tk.err != "" && errMsg == "" {
+				errMsg = tk.err
+			}
+			tabs = append(tabs, tk.tab)
+		}
+		if errMsg != "" {
+			pos := c.p.Pos(fn.Pos())
+			c.fail(c.value, pos, name+": iteration invariant", errMsg)
+			c.fail(c.rng, pos, name+": digits and steps", errMsg)
+			continue
+		}
+		c.nafReport(fn, wd, name, tabs)
 	}
 }
 
-func (c *checker) nafWidth(rc *recodeCtx, fn *ssa.Function, wd int, name string) {
+// nafSetup locates the data-dependent loop and captures the state at its
+// first arrival at the loop head.
+func (c *checker) nafSetup(rc *recodeCtx, fn *ssa.Function, wd int) (*nafTab, string) {
 	pos := c.p.Pos(fn.Pos())
-	failAll := func(msg string) {
-		c.fail(c.value, pos, name+": iteration invariant", msg)
-		c.fail(c.rng, pos, name+": digits and steps", msg)
-	}
 	// run 1: find the data-dependent loop
 	w1 := NewWorld(c.p)
 	m1 := newMemory()
@@ -184,14 +248,12 @@ func (c *checker) nafWidth(rc *recodeCtx, fn *ssa.Function, wd int, name string)
 		if why == "" {
 			why = "the function was interpreted without meeting a data-dependent branch"
 		}
-		failAll("the data-dependent loop of NonAdjacentForm was not found: " + why)
-		return
+		return nil, "the data-dependent loop of NonAdjacentForm was not found: " + why
 	}
 	head, body := loopHeadOf(fn, o1.Branch.in.Block())
 	if head == nil || o1.Branch.in.Parent() != fn {
 		p, _ := w1.where(o1.Branch.in)
-		failAll("undecided: the data-dependent branch at " + p + " is not inside a loop of NonAdjacentForm")
-		return
+		return nil, "undecided: the data-dependent branch at " + p + " is not inside a loop of NonAdjacentForm"
 	}
 	// the loop state: two integer phis, one of which is tested against a
 	// constant by the terminator of the head (pos), the other is the carry
@@ -219,8 +281,7 @@ func (c *checker) nafWidth(rc *recodeCtx, fn *ssa.Function, wd int, name string)
 		}
 	}
 	if posPhi == nil || limit != 256 {
-		failAll(fmt.Sprintf("the loop head at %s does not have the expected state (two integer phis, `pos < 256` as the only exit test)", c.p.Pos(head.Instrs[0].Pos())))
-		return
+		return nil, fmt.Sprintf("the loop head at %s does not have the expected state (two integer phis, `pos < 256` as the only exit test)", c.p.Pos(head.Instrs[0].Pos()))
 	}
 
 	// run 2: the state at the first arrival at the loop head
@@ -231,20 +292,27 @@ func (c *checker) nafWidth(rc *recodeCtx, fn *ssa.Function, wd int, name string)
 	o2 := w.Call(fn, []Value{s, mkConst(int64(wd))}, mem)
 	if !o2.AtHead {
 		_, why := o2.Why(w)
-		failAll("the loop head was not reached: " + why)
-		return
+		return nil, "the loop head was not reached: " + why
 	}
 	for i, phi := range phis {
 		x, _ := o2.HeadVals[i].(*Int)
-		if n, ok := int64(0), false; x != nil {
-			if n, ok = x.Concrete(); !ok || n != 0 {
-				failAll(fmt.Sprintf("the loop state %s does not start at 0 (it is %s)", phi.Name(), x.R))
-				return
-			}
+		if x == nil {
+			return nil, "the loop state " + phi.Name() + " is not an integer"
+		}
+		if n, ok := x.Concrete(); !ok || n != 0 {
+			return nil, fmt.Sprintf("the loop state %s does not start at 0 (it is %s)", phi.Name(), x.R)
 		}
 	}
 	t := &nafTab{c: c, w: w, fn: fn, wd: wd, head: head, env: o2.Frame.env, mem: o2.Mem, pos: posPhi, carry: carryPhi, vars: vars,
 		trans: map[nafState]map[nafState]bool{}, rpos: pos}
+	for j, in := range head.Instrs {
+		if in == ssa.Instruction(posPhi) {
+			t.phiIdx[0] = j
+		}
+		if in == ssa.Instruction(carryPhi) {
+			t.phiIdx[1] = j
+		}
+	}
 	// the digit array: the only [256]int8 object; its cells get symbols so
 	// that any write is visible
 	t.naf = -1
@@ -255,43 +323,66 @@ func (c *checker) nafWidth(rc *recodeCtx, fn *ssa.Function, wd int, name string)
 		if at, ok := ty.Underlying().(*types.Array); ok && at.Len() == 256 {
 			if b, ok := at.Elem().Underlying().(*types.Basic); ok && b.Kind() == types.Int8 {
 				if t.naf >= 0 {
-					failAll("more than one [256]int8 object is live at the loop head")
-					return
+					return nil, "more than one [256]int8 object is live at the loop head"
 				}
 				t.naf = id
 			}
 		}
 	}
 	if t.naf < 0 {
-		failAll("no [256]int8 digit array is live at the loop head")
-		return
+		return nil, "no [256]int8 digit array is live at the loop head"
 	}
-	if cells, ok := intCells(t.mem.objs[t.naf]); ok {
-		for i, x := range cells {
-			if n, ok := x.Concrete(); !ok || n != 0 {
-				failAll(fmt.Sprintf("digit %d is not 0 when the loop starts", i))
-				return
-			}
+	cells, ok := intCells(t.mem.objs[t.naf])
+	if !ok || len(cells) != 256 {
+		return nil, "the digit array is not tracked cell by cell"
+	}
+	for i, x := range cells {
+		if n, ok := x.Concrete(); !ok || n != 0 {
+			return nil, fmt.Sprintf("digit %d is not 0 when the loop starts", i)
 		}
 	}
 	t.cells = w.outputCells("naf", 256, ikind{bits: 8, signed: true})
 	t.mem.objs[t.naf] = &Agg{t.cells}
+	return t, ""
+}
 
-	// tabulate
-	for p := 0; p < 256; p++ {
+// tabulate explores the states (pos, carry) with lo <= pos < hi.
+func (t *nafTab) tabulate(lo, hi int) {
+	for p := lo; p < hi; p++ {
 		for cy := 0; cy <= 1; cy++ {
 			t.explore(nafState{p, cy}, map[int]int8{}, 0)
 		}
 	}
-	if len(t.vmsgs) == 0 {
-		c.okn(c.value, name+": iteration invariant", t.leaves)
-	} else {
-		c.conclude(c.value, t.rpos, name+": iteration invariant", t.vmsgs)
+}
+
+// nafReport merges the tabulated position ranges of one width and records
+// the obligations.
+func (c *checker) nafReport(fn *ssa.Function, wd int, name string, tabs []*nafTab) {
+	pos := c.p.Pos(fn.Pos())
+	t := tabs[0]
+	w := t.w
+	leaves, runs, maxVars := 0, 0, 0
+	var vmsgs, rmsgs []string
+	trans := map[nafState]map[nafState]bool{}
+	for _, tb := range tabs {
+		leaves += tb.leaves
+		runs += tb.runs
+		maxVars = max(maxVars, tb.maxVars)
+		vmsgs = append(vmsgs, tb.vmsgs...)
+		rmsgs = append(rmsgs, tb.rmsgs...)
+		for k, v := range tb.trans {
+			trans[k] = v
+		}
 	}
-	if len(t.rmsgs) == 0 {
-		c.okn(c.rng, name+": digits and steps", t.leaves)
+	if len(vmsgs) == 0 {
+		c.okn(c.value, name+": iteration invariant", leaves)
 	} else {
-		c.conclude(c.rng, t.rpos, name+": digits and steps", t.rmsgs)
+		c.conclude(c.value, pos, name+": iteration invariant", vmsgs)
+	}
+	if len(rmsgs) == 0 {
+		c.okn(c.rng, name+": digits and steps", leaves)
+	} else {
+		c.conclude(c.rng, pos, name+": digits and steps", rmsgs)
 	}
 
 	// exit: from the head with pos >= 256 the function returns the digit array
@@ -332,36 +423,32 @@ func (c *checker) nafWidth(rc *recodeCtx, fn *ssa.Function, wd int, name string)
 			}
 			continue
 		}
-		for nx := range t.trans[st] {
+		for nx := range trans[st] {
 			if !reach[nx] {
 				reach[nx] = true
 				work = append(work, nx)
 			}
 		}
 	}
-	if len(t.vmsgs)+len(t.rmsgs) > 0 {
-		tmsgs = append(tmsgs, "not decided: the transfer function of the loop body has violations (see the iteration invariant)")
+	if len(vmsgs)+len(rmsgs) > 0 {
+		tmsgs = append(tmsgs, "not decided: the transfer function of the loop body has violations (see the iteration invariant and the digits-and-steps clause)")
 	} else if exits == 0 {
 		tmsgs = append(tmsgs, "no exit state is reachable from (pos, carry) = (0, 0)")
 	}
 	c.conclude(c.rng, pos, name+": final carry", tmsgs)
 	c.sample(map[string]any{
 		"function": name,
-		"identity": fmt.Sprintf("for every (pos < 256, carry in {0,1}) and every valuation of the bits the window depends on: carry + sum_{j<d} bit_{pos+j}*2^j == digit + carry'*2^d with d = pos'-pos in {1,%d}; digit is 0 (no write) or odd with |digit| < 2^%d and then d = %d; only naf[pos] is written; bits >= 256 are 0", wd, wd-1, wd),
-		"states":   512, "leaves": t.leaves, "body_runs": t.runs, "max_enumerated_bits": t.maxVars,
+		"identity": fmt.Sprintf("for every (pos < 256, carry in {0,1}) and every valuation of the bits the outcome depends on: carry + sum_{j<d} bit_{pos+j}*2^j == digit + carry'*2^d with d = pos'-pos in {1,%d}; digit is 0 (no write) or odd with |digit| < 2^%d and then d = %d; only naf[pos] is written; bits >= 256 are 0", wd, wd-1, wd),
+		"states":   512, "leaves": leaves, "body_runs": runs, "max_enumerated_bits": maxVars,
 		"reachable_states_for_bit255_0": len(reach), "reachable_exit_states": exits,
-		"termination":                   "every exit state reachable from (0,0) under bit 255 = 0 has carry 0",
-		"stats":                         w.StatList(),
+		"termination": "every exit state reachable from (0,0) under bit 255 = 0 has carry 0",
 	})
 }
 
 // run interprets the loop body once from the head.
 func (t *nafTab) run(st nafState, assign map[int]int8) *Outcome {
 	t.runs++
-	fr := &frame{fn: t.fn, env: make(map[ssa.Value]Value, len(t.env)+16)}
-	for k, v := range t.env {
-		fr.env[k] = v
-	}
+	fr := &frame{fn: t.fn, env: make(map[ssa.Value]Value, 48), base: t.env}
 	fr.env[t.pos] = mkConst(int64(st.pos))
 	fr.env[t.carry] = mkConst(int64(st.carry))
 	mem := t.mem.clone()
@@ -393,6 +480,15 @@ func (t *nafTab) describe(assign map[int]int8) string {
 		ks = append(ks, t.w.vars[v].Index)
 	}
 	sort.Ints(ks)
+	if len(ks) > 12 {
+		zeros := 0
+		for _, k := range ks {
+			if assign[t.vars[k]] == 0 {
+				zeros++
+			}
+		}
+		return fmt.Sprintf("bits b%d..b%d (%d of them 0, %d of them 1)", ks[0], ks[len(ks)-1], zeros, len(ks)-zeros)
+	}
 	s := "bits"
 	for _, k := range ks {
 		s += fmt.Sprintf(" b%d=%d", k, assign[t.vars[k]])
@@ -400,38 +496,94 @@ func (t *nafTab) describe(assign map[int]int8) string {
 	return s
 }
 
-// explore runs the body under a partial assignment and refines it at
-// undecided branches.
+// split enumerates the valuations of the further input bits vs and explores
+// each; it reports false when there is nothing (sensible) to enumerate.
+func (t *nafTab) split(st nafState, assign map[int]int8, vs []int, depth int) bool {
+	var fresh []int
+	for _, v := range vs {
+		if _, done := assign[v]; !done && t.w.vars[v].Kind == VBit {
+			fresh = append(fresh, v)
+		}
+	}
+	if len(fresh) == 0 || len(fresh) > maxBranchVars || depth > 6 {
+		return false
+	}
+	if n := len(assign) + len(fresh); n > t.maxVars {
+		t.maxVars = n
+	}
+	for m := 0; m < 1<<len(fresh); m++ {
+		a2 := make(map[int]int8, len(assign)+len(fresh))
+		for k, v := range assign {
+			a2[k] = v
+		}
+		for i, v := range fresh {
+			a2[v] = int8(m >> i & 1)
+		}
+		t.explore(st, a2, depth+1)
+	}
+	return true
+}
+
+// explore runs the body under a partial assignment and refines the
+// assignment wherever the outcome (a branch, the next state, the digit
+// written) is not concrete.
 func (t *nafTab) explore(st nafState, assign map[int]int8, depth int) {
 	out := t.run(st, assign)
 	if out.Branch != nil {
+		t.w.assign = assign
 		vs := t.w.branchVars(out.Branch.fr, out.Branch.in.Cond)
-		var fresh []int
-		for _, v := range vs {
-			if _, done := assign[v]; !done {
-				fresh = append(fresh, v)
-			}
-		}
-		p, _ := t.w.where(out.Branch.in)
-		if len(fresh) == 0 || len(assign)+len(fresh) > maxBranchVars || depth > 4 {
+		t.w.assign = nil
+		if !t.split(st, assign, vs, depth) {
+			p, _ := t.w.where(out.Branch.in)
 			t.leaves++
-			t.bad(&t.rmsgs, st, assign, "undecided: the branch at %s does not become concrete by enumerating input bits (%d further bits found)", p, len(fresh))
-			return
-		}
-		if n := len(assign) + len(fresh); n > t.maxVars {
-			t.maxVars = n
-		}
-		for m := 0; m < 1<<len(fresh); m++ {
-			a2 := make(map[int]int8, len(assign)+len(fresh))
-			for k, v := range assign {
-				a2[k] = v
+			var fresh []int
+			for _, v := range vs {
+				if _, done := assign[v]; !done && t.w.vars[v].Kind == VBit {
+					fresh = append(fresh, v)
+				}
 			}
-			for i, v := range fresh {
-				a2[v] = int8(m >> i & 1)
+			t.bad(&t.rmsgs, st, assign, "undecided: the branch at %s depends on %d further input bits (more than the window; at most %d are enumerated)", p, len(fresh), maxBranchVars)
+			// probes: the all-zero and the all-one valuation of those bits are
+			// explored so that a genuine violation behind the branch is named
+			// (a probe can only add violations, the state stays undecided)
+			if len(fresh) > 0 && depth <= 6 && !t.probing {
+				t.probing = true
+				for _, b := range []int8{0, 1} {
+					a2 := make(map[int]int8, len(assign)+len(fresh))
+					for k, v := range assign {
+						a2[k] = v
+					}
+					for _, v := range fresh {
+						a2[v] = b
+					}
+					t.explore(st, a2, depth+1)
+				}
+				t.probing = false
 			}
-			t.explore(st, a2, depth+1)
 		}
 		return
+	}
+	if out.AtHead {
+		// the next state and the digit must be concrete: enumerate the bits they depend on
+		var vs []int
+		collect := func(v Value) {
+			if x, ok := v.(*Int); ok {
+				if _, isConc := x.conc(); !isConc {
+					vs = append(vs, x.F().Subst(assign).Vars()...)
+				}
+			}
+		}
+		for _, v := range out.HeadVals {
+			collect(v)
+		}
+		if after, _ := out.Mem.objs[t.naf].(*Agg); after != nil && len(after.E) == 256 && st.pos < 256 {
+			if after.E[st.pos] != t.cells[st.pos] {
+				collect(after.E[st.pos])
+			}
+		}
+		if len(vs) > 0 && t.split(st, assign, vs, depth) {
+			return
+		}
 	}
 	t.leaves++
 	switch {
@@ -448,13 +600,7 @@ func (t *nafTab) explore(st nafState, assign map[int]int8, depth int) {
 	}
 	var nx [2]int64
 	for i, phi := range []*ssa.Phi{t.pos, t.carry} {
-		idx := -1
-		for j, in := range t.head.Instrs {
-			if in == ssa.Instruction(phi) {
-				idx = j
-			}
-		}
-		x, _ := out.HeadVals[idx].(*Int)
+		x, _ := out.HeadVals[t.phiIdx[i]].(*Int)
 		n, ok := int64(0), false
 		if x != nil {
 			n, ok = x.Concrete()
@@ -469,7 +615,9 @@ func (t *nafTab) explore(st nafState, assign map[int]int8, depth int) {
 	d := np - st.pos
 	if d != 1 && d != t.wd {
 		t.bad(&t.rmsgs, st, assign, "the position advances by %d, want 1 or %d", d, t.wd)
-		return
+		if d <= 0 || d > 64 {
+			return
+		}
 	}
 	if nc != 0 && nc != 1 {
 		t.bad(&t.rmsgs, st, assign, "the next carry is %d, want 0 or 1", nc)
